@@ -409,7 +409,7 @@ def case_start(ctx, desc):
             w.deep.task_handler._pool.submit(lambda: None).result(5)
             import time
             t0 = time.time()
-            while not w.deep.trigger_handler._tp_config and time.time() - t0 < 5:
+            while not w.deep.trigger_handler._tp_config and time.time() - t0 < 15:
                 time.sleep(0.002)
             Forwarder({path}, w.deep.trigger_handler).call(ns['f'])
             w.deep.shutdown()
